@@ -48,6 +48,8 @@ def main():
         shutil.rmtree(f"/tmp/verif_dev/{os.path.basename(wt)}", ignore_errors=True)
     out = f"/verif/seeded/{sid}"
     os.makedirs(out, exist_ok=True)
+    if not needs and os.path.exists(f"{out}/meta.json"):
+        meta["needs_to_manifest"] = json.load(open(f"{out}/meta.json")).get("needs_to_manifest", "")
     if no_suite and os.path.exists(f"{out}/meta.json"):
         # a re-run of the check only: keep the pinned-suite result recorded when the change was first confirmed
         old = json.load(open(f"{out}/meta.json"))
